@@ -1,11 +1,11 @@
 package main
 
 import (
-	"unicode/utf8"
 	"fmt"
 	"math"
 	"sort"
 	"strings"
+	"unicode/utf8"
 )
 
 // gStr prints a Go string (bytes) as a Coq string term.
@@ -89,6 +89,8 @@ func gScalar(v any) string {
 		return "(SInt " + gZ(int64(x)) + ")"
 	case int64:
 		return "(SInt " + gZ(x) + ")"
+	case uint64: // (as normScalar reads it back)
+		return "(SInt " + gZ(int64(x)) + ")"
 	case float64:
 		return fmt.Sprintf("(SFlt %d%%Z)", math.Float64bits(x))
 	case string:
